@@ -38,7 +38,7 @@ def main():
         seeds.append(pegrun.syms(t))
         seeds.append(pegrun.mutate(rnd, pegrun.syms(t)))
     uniq = pegrun.cheap(seeds, cap, wd)
-    world = pegrun.peg_world(toks, 2 if quick else 3, 1, uniq, later=pegrun.LATER if quick else pegrun.LATER[:3])
+    world = pegrun.peg_world(toks, 2 if quick else 3, 1, uniq, later=pegrun.LATER if quick else pegrun.LATER[:3], traced=True)
     res = pegrun.run_peg(chk, "c15", world, shapes=False)
     chk.cov["evaluations"] = res["inputs"]
     chk.cov["distinct_nontrivial"] = res["byacc"].get("yes", 0) + res["byacc"].get("tree+error", 0)
